@@ -165,7 +165,12 @@ def handle (toks : List String) : String :=
     match kindOps kind, stl.toNat?, cil.toNat?, wbs.toNat?, rowlimit.toNat?, parseBatches batches with
     | some ops, some stl, some cil, some wbs, some rowlimit, some bs => statsAnswer ops stl cil wbs rowlimit bs
     | _, _, _, _, _, _ => "bad-op"
-  | ["file", _api, _kind, _stl, _cil, level, _wbs, _rowlimit, _flags, _bloom, batches] =>
+  | ["nested", _rowlimit, _wbs, _flags, rows] =>
+    -- specification only: number of rows and of non-null leaf values
+    let rs := if rows = "-" then [] else rows.splitOn ";"
+    let leaves := (rs.map (fun r => if r = "N" ∨ r = "E" then 0 else ((r.splitOn ",").filter (· ≠ "n")).length)).foldl (· + ·) 0
+    s!"{rs.length} {leaves}"
+  | ["file", _api, _kind, _stl, _cil, level, _wbs, _rowlimit, _flags, _bloom, _rg, batches] =>
     -- specification only: number of rows and nulls
     let items := ((batches.splitOn ";").map (fun b => if b = "-" then [] else b.splitOn ",")).flatten
     let nulls := (items.filter (· = "n")).length
